@@ -1036,15 +1036,18 @@ mod verif_inflate_core {
     #[kani::stub(HuffmanTable::lookup, model_lookup)]
     #[kani::stub(apply_match, model_apply_match)]
     #[kani::stub(transfer, model_transfer)]
-    fn k_decompress_fast_bounded() { decompress_fast_body::<320>(); }
+    fn k_decompress_fast_bounded() { let _ = decompress_fast_body::<320>(); }
     /// same with a 512-byte ring reachable (a distance equal to the ring size is a valid match)
     #[kani::proof]
     #[kani::unwind(4)]
     #[kani::stub(HuffmanTable::lookup, model_lookup)]
     #[kani::stub(apply_match, model_apply_match)]
     #[kani::stub(transfer, model_transfer)]
-    fn k_decompress_fast_bounded_ring512() { decompress_fast_body::<520>(); }
-    fn decompress_fast_body<const BIG: usize>() {
+    fn k_decompress_fast_bounded_ring512() {
+        let hit = decompress_fast_body::<520>();
+        kani::cover!(hit, "COV:fast.distance_equal_to_ring_size");
+    }
+    fn decompress_fast_body<const BIG: usize>() -> bool {
         LK_LIMIT.store(5, ::core::sync::atomic::Ordering::Relaxed);
         let mut r = any_decompressor(DecodeLitlen);
         let mut l = any_l();
@@ -1082,7 +1085,7 @@ mod verif_inflate_core {
         }
         kani::cover!(st == TINFLStatus::Failed, "COV:fast.failed");
         kani::cover!(AM_CALLS.load(::core::sync::atomic::Ordering::Relaxed) >= 1, "COV:fast.match");
-        if BIG >= 512 { kani::cover!(!flat && AM_CALLS.load(::core::sync::atomic::Ordering::Relaxed) >= 1 && l.dist as usize == outl, "COV:fast.distance_equal_to_ring_size"); }
+        !flat && AM_CALLS.load(::core::sync::atomic::Ordering::Relaxed) >= 1 && l.dist as usize == outl
     }
 
     // ------------------------------------------------------------------
